@@ -450,5 +450,10 @@ row(props=["C12"], func=API + "buildBaseApiUrlString", params=["name", "ctx"], k
     fields={"value": 'ite(len(%s) < 2, %s, call("slice", %s, 1, len(%s) - 1))' % (PAIRTXT, PAIRTXT, PAIRTXT, PAIRTXT)},
     what="the base path of a controller is the value= of its class-level @RequestMapping")
 
+IFACE = "lookup(idmap, clz.Implements[0])"
+row(props=["C03"], func="pkg/domain/core_domain.BuildDIMap", params=["identifiers", "idmap"], kind="emits", target="mapstore:makemap1", tag={}, total=1, each={"as": "clz,ann"},
+    when="*", fields={"key": '%s.Package + "." + %s.NodeName' % (IFACE, IFACE), "value": 'clz.Package + "." + clz.NodeName'},
+    what="the injection table maps an interface to the component that implements it (the registered implementation the call graph substitutes), not to itself")
+
 json.dump({"e5": rows}, open(os.path.join(os.path.dirname(os.path.dirname(os.path.abspath(__file__))), "spec", "e5.json"), "w"), indent=1, ensure_ascii=False)
 print(len(rows), "rows")
